@@ -14,6 +14,47 @@ func init() { register("C17", checkC17, replayRouting(replayC17)) }
 
 var c17Methods = []string{"GET", "POST", "PUT", "OPTIONS", "DELETE"} // route methods GET/POST/PUT + OPTIONS + one foreign method
 
+// (MX) extension methods whose names contain one another (LOCK / UNLOCK, PATCH / PROPPATCH)
+var c17MXMethods = []string{"GET", "LOCK", "UNLOCK", "OPTIONS", "PATCH", "PROPPATCH", "DELETE"}
+
+func c17MethodsOf(sweepName string) []string {
+	if sweepName == "MX" {
+		return c17MXMethods
+	}
+	return c17Methods
+}
+
+// mxTables: one service /m with 2-3 routes on /{x}, every ordered selection of distinct methods
+// from {GET, LOCK, UNLOCK, PATCH, PROPPATCH} (the order of registration is the order of the list).
+func mxTables() tableGen {
+	ms := []string{"GET", "LOCK", "UNLOCK", "PATCH", "PROPPATCH"}
+	var tabs []rm.Table
+	var rec func(cur []string)
+	rec = func(cur []string) {
+		if len(cur) >= 2 {
+			var routes []rm.RouteDecl
+			for i, m := range cur {
+				routes = append(routes, rm.RouteDecl{ID: i, Method: m, Sub: "/{x}"})
+			}
+			tabs = append(tabs, rm.Table{Svcs: []rm.SvcDecl{{Root: "/m", Routes: routes}}})
+		}
+		if len(cur) == 3 {
+			return
+		}
+		for _, m := range ms {
+			dup := false
+			for _, c := range cur {
+				dup = dup || c == m
+			}
+			if !dup {
+				rec(append(append([]string{}, cur...), m))
+			}
+		}
+	}
+	rec(nil)
+	return tableGen{len(tabs), func(i int) rm.Table { return tabs[i] }}
+}
+
 func c17Sweeps(tier string) []sweep {
 	u := rs.Universe{Tokens: []string{"a", "b", "{x}", "{y}"}, Roots: []string{"/", "/a", "/a/b", "/é d", "/a/"}, MaxSub: 2,
 		Segs: []string{"a", "b", "é d"}, MaxPath: 3, RMethods: []string{"GET", "POST", "PUT"}}
@@ -34,6 +75,7 @@ func c17Sweeps(tier string) []sweep {
 	// a Consumes-restricted variant so that 415 (routable, not 404/405) occurs
 	atoms = append(atoms, atom{"/a", rm.RouteDecl{Method: "POST", Sub: "/{x}", Consumes: []string{rs.JSON}}})
 	out := []sweep{{"P1", rm.Curly, singles(atoms), reqs}, {"P2", rm.Curly, pairs(atoms), reqs}}
+	out = append(out, sweep{"MX", rm.Curly, mxTables(), crossReqs([]h.Req{{Segs: []string{"m", "1"}}, {Segs: []string{"m"}}}, c17MXMethods, rs.PathSweepHeaders[:1], false)})
 	if tier == "thorough" {
 		u3 := u
 		u3.Tokens = []string{"a", "b", "{x}"}
@@ -132,6 +174,7 @@ func c17Probe(t rm.Table, r rm.Router, base h.Req, methods []string) ([]rs.Outco
 
 func replayC17(rc routingCase, o rs.Outcome) error {
 	r := routerOf(rc.Router)
+	c17Methods := c17MethodsOf(rc.Sweep)
 	plain, filt, hdr := c17Probe(rc.Table, r, rc.Req, c17Methods)
 	for i, m := range c17Methods {
 		fmt.Printf("%-8s plain: %-30s with OPTIONS filter: %s %v\n", m, plain[i].Key(), filt[i].Key(), hdr[i])
@@ -147,10 +190,11 @@ func checkC17(run *h.Run) {
 	rs.Quiet(false)
 	all := map[string]sweepStats{}
 	var order []string
-	nm := len(c17Methods)
 	for _, router := range []rm.Router{rm.Curly, rm.JSR311} {
 		for _, sp := range c17Sweeps(run.Tier) {
 			sp, router := sp, router
+			c17Methods := c17MethodsOf(sp.Name)
+			nm := len(c17Methods)
 			name := fmt.Sprintf("%s/%s", router, sp.Name)
 			order = append(order, name)
 			st := runSweep(run, sp, func(w *worker, t rm.Table, p *rm.Parsed, st *sweepStats) {
@@ -208,7 +252,7 @@ func checkC17(run *h.Run) {
 	run.Cov["evaluations"] = disp
 	run.Cov["distinct_nontrivial"] = nontriv
 	run.Cov["exhaustive"] = true
-	run.Cov["rule"] = "E1: every table of 1-2 routes (thorough: also 3) over literal / plain-variable tokens and nested literal roots x every URL of <= 3 segments; a state is one (table, URL) with one probe per method in {GET, POST, PUT, OPTIONS, DELETE} on a container with the OPTIONS filter and on a filter-less twin; routable(URL) is measured on the twin. Non-trivial: some method is not answered 404."
+	run.Cov["rule"] = "E1: every table of 1-2 routes (thorough: also 3) over literal / plain-variable tokens and nested literal roots x every URL of <= 3 segments; a state is one (table, URL) with one probe per method in {GET, POST, PUT, OPTIONS, DELETE} on a container with the OPTIONS filter and on a filter-less twin; routable(URL) is measured on the twin. MX: 2-3 routes on one template in every order over extension methods whose names contain one another (LOCK/UNLOCK, PATCH/PROPPATCH). Non-trivial: some method is not answered 404."
 	run.Assume = []string{"routable(URL) is measured, not modelled: {m | status(m, URL) not in {404, 405}} on the filter-less twin"}
 }
 
